@@ -154,7 +154,7 @@ func newExec(w *World, fn *ssa.Function, key string, props []string, discover bo
 	x := &Exec{w: w, em: NewEmitter(), top: fn, trusted: map[string]bool{}, discover: discover,
 		loopMods: map[*ssa.BasicBlock]map[string]bool{}, strConst: map[string]string{}, sumFns: map[string]string{},
 		typeTags: map[string]int{}, ordinals: map[string]int{}, props: props, fnKey: key, sumInst: map[string]bool{},
-		usedContracts: map[string]bool{}}
+		usedContracts: map[string]bool{}, loopRoots: map[*ssa.BasicBlock]map[string][]ssa.Value{}}
 	return x
 }
 
@@ -188,6 +188,7 @@ func (w *World) verifyFunc(c *Contract) (res *FnResult) {
 	// pass 2
 	x := newExec(w, fn, c.Key, c.Props, false)
 	x.loopMods = d.loopMods
+	x.loopRoots = d.loopRoots
 	x.runTop(fn, c)
 	res.Obls = x.obls
 	for t := range x.trusted {
